@@ -2,6 +2,7 @@
 package c03
 
 import (
+	"crypto/sha1"
 	"encoding/json"
 	"errors"
 	"fmt"
@@ -10,6 +11,8 @@ import (
 	"net/http/httptest"
 	"net/url"
 	"os"
+	"runtime"
+	"sort"
 	"strings"
 	"sync"
 	"testing"
@@ -586,3 +589,111 @@ func propRenderSolo(t *rapid.T) {
 }
 
 func TestPropRenderSolo(t *testing.T) { rapid.Check(t, propRenderSolo) }
+
+// propRaceSoloAnswers: a mixed load served at the same time through one http.ServeMux - OPTIONS requests answered by
+// a NotAllowed handler that edits the list it is handed, bodies streamed from plain readers (some to a writer that
+// breaks), a rux.HandlerFunc mounted as a plain http.Handler - and every request must get exactly the answer it gets
+// alone on a fresh set-up.  Run under the race detector.
+type onlyReader struct{ r io.Reader }
+
+func (o onlyReader) Read(p []byte) (int, error) { return o.r.Read(p) }
+
+type brokenWriter struct{ h http.Header }
+
+func (b brokenWriter) Header() http.Header       { return b.h }
+func (b brokenWriter) WriteHeader(int)           {}
+func (b brokenWriter) Write([]byte) (int, error) { return 0, errors.New("connection reset") }
+
+func buildSoloMux() http.Handler {
+	r := rux.New(rux.HandleMethodNotAllowed)
+	r.Use(func(c *rux.Context) { c.Next() })
+	r.NotAllowed(func(c *rux.Context) {
+		own, _ := c.SafeGet(rux.CTXAllowedMethods).([]string)
+		sorted := append([]string{}, own...)
+		sort.Strings(sorted)
+		c.SetStatus(405)
+		c.WriteString("allowed:" + strings.Join(sorted, ","))
+		for i := range own { // its list: it may do with it what it likes
+			own[i] = "GET"
+		}
+	})
+	for _, m := range []string{"GET", "POST", "PUT", "DELETE"} {
+		r.Add("/res/{id}", func(c *rux.Context) { c.WriteString("res:" + c.Param("id")) }, m)
+	}
+	r.GET("/stream/{n}", func(c *rux.Context) {
+		n := c.Params.Int("n")
+		body := strings.Repeat(fmt.Sprintf("<%d>", n), 3000+n) // several buffers long, different per request
+		c.Stream(200, "text/plain", onlyReader{strings.NewReader(body)})
+	})
+	mux := http.NewServeMux()
+	mux.Handle("/hf/", rux.HandlerFunc(func(c *rux.Context) {
+		c.Set("who", c.Req.URL.Path)
+		runtime.Gosched()
+		c.SetStatus(201)
+		c.WriteString("hf:" + c.Req.URL.Path + ":" + fmt.Sprint(c.SafeGet("who")))
+	}))
+	mux.Handle("/", r)
+	return mux
+}
+
+func propRaceSoloAnswers(t *rapid.T) {
+	ev.Case()
+	h := buildSoloMux()
+	type job struct{ m, p string }
+	gen := rapid.Custom(func(t *rapid.T) job {
+		n := rapid.IntRange(0, 9).Draw(t, "n")
+		switch rapid.IntRange(0, 3).Draw(t, "kind") {
+		case 0:
+			return job{"OPTIONS", fmt.Sprintf("/res/%d", n)}
+		case 1:
+			return job{"GET", fmt.Sprintf("/stream/%d", n)}
+		case 2:
+			return job{"GET", fmt.Sprintf("/hf/%d", n)}
+		}
+		return job{"BROKEN", fmt.Sprintf("/stream/%d", n)} // a stream whose client has gone
+	})
+	solo := func(j job) string {
+		rec := httptest.NewRecorder()
+		buildSoloMux().ServeHTTP(rec, httptest.NewRequest(j.m, j.p, nil))
+		return fmt.Sprintf("%d %d bytes %x", rec.Code, rec.Body.Len(), sha1.Sum(rec.Body.Bytes()))
+	}
+	g := rapid.IntRange(2, 6).Draw(t, "goroutines")
+	plans := make([][]job, g)
+	for i := range plans {
+		plans[i] = rapid.SliceOfN(gen, 2, 6).Draw(t, "plan")
+	}
+	errs := make([]string, g)
+	var wg sync.WaitGroup
+	for i := range plans {
+		wg.Add(1)
+		go func(i int) {
+			defer wg.Done()
+			for _, j := range plans[i] {
+				if j.m == "BROKEN" {
+					func() {
+						defer func() { _ = recover() }()
+						h.ServeHTTP(brokenWriter{http.Header{}}, httptest.NewRequest("GET", j.p, nil))
+					}()
+					continue
+				}
+				rec := httptest.NewRecorder()
+				h.ServeHTTP(rec, httptest.NewRequest(j.m, j.p, nil))
+				got := fmt.Sprintf("%d %d bytes %x", rec.Code, rec.Body.Len(), sha1.Sum(rec.Body.Bytes()))
+				if want := solo(j); got != want {
+					errs[i] = fmt.Sprintf("%s %s answered %s, alone on a fresh set-up %s", j.m, j.p, got, want)
+					return
+				}
+			}
+		}(i)
+	}
+	wg.Wait()
+	ev.Eval()
+	for _, e := range errs {
+		if e != "" {
+			t.Fatalf("%d goroutines, plans %v: %s", g, plans, e)
+		}
+	}
+	ev.NonTrivial(fmt.Sprint(plans), func() string { return fmt.Sprintf("%d goroutines: %v", g, plans) })
+}
+
+func TestRaceSoloAnswers(t *testing.T) { rapid.Check(t, propRaceSoloAnswers) }
